@@ -15,7 +15,7 @@ RULE = ("A finite grammar of malformed arguments is enumerated COMPLETELY at eve
         "int, str, dict, bare rating, []}; player (i,j) in {None, int, float, str, (mu,sigma) tuple, dict, a rating of each of the four other "
         "models, the rating class, a nested list}; ranks/scores in {tuple, str, non-zero int/float, dict, set, range, "
         "generator, True, deque, array, bytes, length n-1, length n+1, element i in {None, str, list, tuple, complex, a rating}}; both "
-        "selectors given; plus containers that were ACCEPTED once and are then edited in place to be malformed and passed "
+        "selectors given - every selector fault as a keyword call and as a POSITIONAL call rate(teams, ranks, scores, ...); plus containers that were ACCEPTED once and are then edited in place to be malformed and passed "
         "again. Applied to rate (all) and the three predict operations (teams part). Oracle: the call raises "
         "TypeError or ValueError, and a frame monitor finds every rating reachable from the arguments and the model's "
         "__dict__ unchanged afterwards. A well-formed acceptance set (int, float, bool, 0, negative, -0.0, huge ints, "
@@ -239,13 +239,36 @@ def probe_base(ctx, payload):
         o = observe(model, "rate", teams, **kw2)
         _judge_rejected(ctx, payload, label, "rate", o, model_name, len(o.raw))
         nvar += 1
+        # the same malformed call written POSITIONALLY: rate(teams, ranks, scores, tau, limit_sigma)
+        if set(sel_kw) <= {"ranks", "scores"}:
+            model, teams, kw = build(case, Ms)
+            order = ["ranks", "scores", "tau", "limit_sigma"]
+            kwp = dict(call)
+            for k_, v_ in sel_kw.items():
+                if isinstance(v_, tuple) and len(v_) == 2 and v_[0] == "RATING":
+                    vv = list(range(1, V.n + 1))
+                    vv[v_[1]] = teams[0][0]
+                    v_ = vv
+                elif hasattr(v_, "__next__"):
+                    v_ = _gen(list(V.valid_vals))
+                kwp[k_] = v_
+            last = max(i for i, k_ in enumerate(order) if k_ in kwp)
+            o = observe(model, "rate", teams, *[kwp.get(k_) for k_ in order[:last + 1]])
+            _judge_rejected(ctx, payload, "positional: " + label, "rate", o, model_name, len(o.raw))
+            nvar += 1
     # --- acceptance set
     for label, vals in V.wellformed():
         for sel in ("ranks", "scores"):
             model, teams, kw = build(case, Ms)
             kw2 = dict(call)
             kw2[sel] = list(vals)
-            o = observe(model, "rate", teams, **kw2)
+            if (len(label) + len(sel)) % 2:
+                # half of the acceptance set is called positionally
+                order = ["ranks", "scores", "tau", "limit_sigma"]
+                last = max(i for i, k_ in enumerate(order) if k_ in kw2)
+                o = observe(model, "rate", teams, *[kw2.get(k_) for k_ in order[:last + 1]])
+            else:
+                o = observe(model, "rate", teams, **kw2)
             ctx.ev("accepted")
             ctx.bucket("accepted_variants", f"{sel}:{label}")
             if o.exc is not None:
